@@ -30,7 +30,7 @@ func init() {
 			"crash = os.Exit inside a hook (process crash); power loss = truncation of unsynced tails computed from the fsync events; loss/reordering of directory operations is not modelled",
 			"fsync is on (conf.SkipFsync=false); retention disabled (huge TotalSize)",
 		},
-		Batches: tiered(48, 480),
+		Batches: tiered(192, 3840),
 		Run:     runC01,
 		Par:     16,
 		Timeout: timeoutFor(10*time.Minute, 45*time.Minute),
